@@ -2,6 +2,7 @@ import CssVerif.Lib.Proto
 import CssVerif.Model.Tok
 import CssVerif.Model.TokSpec
 import CssVerif.Lemmas.TokLex2
+import CssVerif.Model.TokPush
 open CssVerif CssVerif.Proto CssVerif.Tok CssVerif.Gen.C05
 
 def showStop : Stop → String
@@ -57,6 +58,25 @@ def lex2All? : List String → Option (List Lex2)
 def showPairs (ps : List (String × List Nat)) : String :=
   String.join (ps.map fun p => " " ++ p.1 ++ ":" ++ encCps p.2)
 
+/-- script of consumer actions: `n` = next, `pK` = push K fresh tokens (numbered consecutively) -/
+def script? (ws : List String) (ctr : Nat) : Option (List Act) :=
+  match ws with
+  | [] => some []
+  | w :: rest =>
+    if w == "n" then (script? rest ctr).map (Act.next :: ·)
+    else if w.startsWith "p" then
+      match (w.drop 1).toNat? with
+      | some k =>
+        let ts := (List.range k).map fun i => (⟨"PUSHED", [ctr + i], 0, 0, [], [], true⟩ : Item)
+        (script? rest (ctr + k)).map (Act.push ts :: ·)
+      | none => none
+    else none
+
+def showOut : Out → String
+  | .text it => s!"T:{it.typ}:{encCps it.value}:{it.line}:{it.col}"
+  | .pushed it => s!"P:{encCps it.value}"
+  | .stop => "-"
+
 def handle (line : String) : String :=
   match words line with
   | ["tok", f, d, t] => match flag? f, flag? d, decCps t with
@@ -69,6 +89,10 @@ def handle (line : String) : String :=
         s!"{if ok then 1 else 0} {encCps (render2 ts)} |" ++
           showPairs ((expectedAll ts).filter fun p => d || p.1 != "COMMENT")
       | _, _ => "bad-op"
+  | ["push", f, d, t, sc] => match flag? f, flag? d, decCps t, script? (sc.splitOn ".") 0 with
+      | some f, some d, some t, some acts =>
+        String.intercalate " " ((runP (initP t f d) acts).map showOut)
+      | _, _, _, _ => "bad-op"
   | ["re", n, t] => match reByName n, decCps t with
       | some r, some t => match r.first t with
           | some l => toString l
